@@ -7,7 +7,7 @@ import numpy as np
 
 from jmon import envs as E
 from jmon.common import Report, key_for, shard_rng
-from jmon.props._util import HEAVY, deep_episodes, env_cfg_shards, step_cap
+from jmon.props._util import HEAVY, coincidence_shards, deep_episodes, env_cfg_shards, run_coincidence, step_cap
 from jmon.rollout import Event, Monitor, Runner, run_episode
 
 RULE = (
@@ -24,7 +24,7 @@ POLS = ["random", "masked", "invalid_late", "survive", "mixed", "first", "surviv
 
 
 def shards(tier: str, seed: int) -> List[Dict[str, Any]]:
-    return env_cfg_shards(tier, E.ENVS, HEAVY, prop="C03", seed=seed)
+    return env_cfg_shards(tier, E.ENVS, HEAVY, prop="C03", seed=seed) + coincidence_shards(tier, HEAVY)
 
 
 class ProtocolMonitor(Monitor):
@@ -108,6 +108,9 @@ class ProtocolMonitor(Monitor):
 
 
 def run_shard(shard: Dict[str, Any], rep: Report) -> None:
+    if shard.get("coincide"):
+        run_coincidence(shard, rep, lambda r2, P2: ProtocolMonitor(r2, rep))
+        return
     tier, seed = shard["tier"], shard["seed"]
     runner = Runner(shard["env"], shard["cfg"])
     rng = shard_rng(seed, shard["id"])
